@@ -17,8 +17,9 @@ Proof. exact @split_at_rep. Qed.
 Theorem c03_split_by_rep : forall (T M V A : Type) (update : T -> option T -> option T -> T) (push : T -> option T -> option T -> T * option T * option T) (size : T -> Z) (modify : M -> T -> T) (elem : T -> V) (agg : T -> A) (act : M -> V -> V) (aggf : list V -> A) (Pending : T -> list M -> Prop), lawful update push size modify elem agg act aggf Pending -> forall (q : V -> bool) (t : tree) (xs : list V) (a b : tree), Rep size elem agg act aggf Pending t xs -> monotone_on q xs = true -> split_by update push (fun x => q (elem x)) t None = (a, b) -> Rep size elem agg act aggf Pending a (take_while q xs) /\ Rep size elem agg act aggf Pending b (drop_while q xs).
 Proof. exact @split_by_rep. Qed.
 
-(** insert_at k x inserts the element of a fresh item before position k (k >= len appends) *)
-Theorem c03_insert_at : forall (T M V A : Type) (update : T -> option T -> option T -> T) (push : T -> option T -> option T -> T * option T * option T) (size : T -> Z) (modify : M -> T -> T) (elem : T -> V) (agg : T -> A) (act : M -> V -> V) (aggf : list V -> A) (Pending : T -> list M -> Prop), lawful update push size modify elem agg act aggf Pending -> forall (t : tree) (k : Z) (x : T) (p : Z) (xs : list V), Rep size elem agg act aggf Pending t xs -> Fresh size elem agg aggf Pending x -> Rep size elem agg act aggf Pending (insert_at update push size t k x p) (firstn (Z.to_nat k) xs ++ elem x :: skipn (Z.to_nat k) xs).
+(** insert_at k x inserts the element of a detached item (one element, ANY pending tag: a fresh item, or one the caller
+    modified before handing it over) before position k (k >= len appends) *)
+Theorem c03_insert_at : forall (T M V A : Type) (update : T -> option T -> option T -> T) (push : T -> option T -> option T -> T * option T * option T) (size : T -> Z) (modify : M -> T -> T) (elem : T -> V) (agg : T -> A) (act : M -> V -> V) (aggf : list V -> A) (Pending : T -> list M -> Prop), lawful update push size modify elem agg act aggf Pending -> forall (t : tree) (k : Z) (x : T) (p : Z) (xs : list V), Rep size elem agg act aggf Pending t xs -> Detached size elem agg aggf Pending x -> Rep size elem agg act aggf Pending (insert_at update push size t k x p) (firstn (Z.to_nat k) xs ++ elem x :: skipn (Z.to_nat k) xs).
 Proof. exact @insert_at_rep. Qed.
 
 (** remove_at k removes and returns the k-th element; out of range it returns nothing (the unwrap panics) and the sequence is unchanged;
@@ -34,10 +35,11 @@ Proof. exact @first_last_collect_size. Qed.
 Theorem c03_modify_root : forall (T M V A : Type) (update : T -> option T -> option T -> T) (push : T -> option T -> option T -> T * option T * option T) (size : T -> Z) (modify : M -> T -> T) (elem : T -> V) (agg : T -> A) (act : M -> V -> V) (aggf : list V -> A) (Pending : T -> list M -> Prop), lawful update push size modify elem agg act aggf Pending -> forall (m : M) (t : tree) (xs : list V), Rep size elem agg act aggf Pending t xs -> Rep size elem agg act aggf Pending (modify_root modify m t) (map (act m) xs).
 Proof. exact @modify_root_rep. Qed.
 
-(** every history of the multi-treap machine (including Move: remove_at followed by insert_at of the returned item object), for every priority stream,
+(** every history of the multi-treap machine (including Move: remove_at, the caller's modifications of the returned item object, insert_at of that object;
+    items handed to from_item / insert_at may carry any pending tag: op_detached), for every priority stream,
     produces the outputs of the list-of-lists specification (of a removed item the specification sees the element), every item handed out by remove_at is
     Fresh, and the history ends in treaps that denote the specification's lists *)
-Theorem c03_history : forall (T M V A : Type) (update : T -> option T -> option T -> T) (push : T -> option T -> option T -> T * option T * option T) (size : T -> Z) (modify : M -> T -> T) (elem : T -> V) (agg : T -> A) (act : M -> V -> V) (aggf : list V -> A) (Pending : T -> list M -> Prop), lawful update push size modify elem agg act aggf Pending -> forall (ps : list Z) (ops : list op) (sst : list (list V)) (outs : list output), Forall (op_fresh size elem agg aggf Pending) ops -> srun elem act aggf [] ops = Some (sst, outs) -> map (out_elem elem) (run_outputs update push size modify elem agg ps ops) = outs /\ Forall (out_fresh size elem agg aggf Pending) (run_outputs update push size modify elem agg ps ops) /\ Forall2 (Rep size elem agg act aggf Pending) (run_final update push size modify elem agg ps ops) sst.
+Theorem c03_history : forall (T M V A : Type) (update : T -> option T -> option T -> T) (push : T -> option T -> option T -> T * option T * option T) (size : T -> Z) (modify : M -> T -> T) (elem : T -> V) (agg : T -> A) (act : M -> V -> V) (aggf : list V -> A) (Pending : T -> list M -> Prop), lawful update push size modify elem agg act aggf Pending -> forall (ps : list Z) (ops : list op) (sst : list (list V)) (outs : list output), Forall (op_detached size elem agg aggf Pending) ops -> srun elem act aggf [] ops = Some (sst, outs) -> map (out_elem elem) (run_outputs update push size modify elem agg ps ops) = outs /\ Forall (out_fresh size elem agg aggf Pending) (run_outputs update push size modify elem agg ps ops) /\ Forall2 (Rep size elem agg act aggf Pending) (run_final update push size modify elem agg ps ops) sst.
 Proof. exact @history. Qed.
 
 (** the ItemSized item (lazy add, sum, size) over Z satisfies the interface *)
